@@ -71,7 +71,7 @@ def main():
     finally:
         ex.close()
     scan_info = None
-    if prop in ('C16', 'C05') and not engine_error:
+    if prop in ('C16', 'C05'):
         import engine
         import statescan
         P = engine.load_program(build['mir'], build['src'], cache_dir=build['dir'])
@@ -155,10 +155,13 @@ def main():
     print('property=%s tier=%s paths=%d hook_paths=%d obligations=%d queries=%d solver=%.1fs tv=%d wall=%.1fs' % (prop, tier, paths, ev['coverage']['paths_with_hook'], ev['coverage']['obligations'], ev['coverage']['solver_queries'], ev['coverage']['solver_time_s'], ev['coverage']['traces_validated_against_impl'], wall))
     for role, k, n, w in known_roles:
         print('KNOWN-FINDING: property=%s %s (%s; %d paths%s%s)' % (prop, role, k.get('what', ''), n, '; e.g. ' + (w.get('input') or '').replace('\n', ' ') if w else '', '; V8: %s' % w['v8'].get('verdict') if w and w.get('v8') else ''))
-    if engine_error:
+    if engine_error and not new_roles:
         print('INCONCLUSIVE property=%s %s' % (prop, engine_error[:3000]))
         return 2
-    if nonrepro:
+    if engine_error:
+        # confirmed violations stand on their own; the exploration that stopped early is reported as well
+        print('NOTE property=%s exploration incomplete: %s' % (prop, engine_error[:600].replace('\n', ' ')))
+    if nonrepro and not new_roles:
         role, w = nonrepro[0]
         print('INCONCLUSIVE property=%s counterexample for %s did not reproduce natively: %s' % (prop, role, json.dumps(w)[:2000]))
         return 2
